@@ -308,6 +308,21 @@ def dataSurvivesPlanningOld (realIn hc freshPlan plannerDestroys inPlace : Bool)
   !(freshPlan && plannerDestroys &&
     (!(mc && !arrayInCopied realIn hc) || inPlace))
 
+/-- `pyfftw_call`, reuse of a given (cached) plan: it is used only if its in-place-ness
+(`plan.input_array is plan.output_array`) equals that of the call (`array_out is array_in`);
+otherwise a new plan is made for the call.  Result: the in-place-ness of the plan that is
+EXECUTED.  (`given = none`: no cached plan.) -/
+def executedPlanInPlace (given : Option Bool) (callInPlace : Bool) : Bool :=
+  match given with
+  | some p => if p == callInPlace then p else callInPlace
+  | none => callInPlace
+
+/-- Before the repair a given plan was always executed. -/
+def executedPlanInPlaceOld (given : Option Bool) (callInPlace : Bool) : Bool :=
+  match given with
+  | some p => p
+  | none => callInPlace
+
 /-- Constructors reject a forward sign `'+'` combined with `halfcomplex` (both operator
 families; `fwdPlus` is the sign of the FORWARD transform) and, for `FourierTransform`, a
 non-shifted halved axis. -/
